@@ -28,7 +28,7 @@ PID = "C25"
 LEVEL = "exploration"
 RULE = (
     "exhaustive histories ending in a fetch over {get(n), select([n, m]), put(n, v), del(n), swap loader} for 2 names x 2 versions "
-    "(length <= 4 quick / <= 5 thorough, plus length 6 on bounded caches) and 3 names x 2 versions (length <= 3, plus length 4 on DictLoader with "
+    "(length <= 4 quick / <= 5 thorough, plus length 6 on cache sizes 1 and 2: full alphabet on DictLoader, get/put/del only on the other loaders) and 3 names x 2 versions (length <= 3, plus length 4 on DictLoader with "
     "cache size 2, quick / <= 4 thorough) "
     "x cache sizes {0, 1, 2, -1} x auto_reload {on, off} x {DictLoader, FunctionLoader returning str, FunctionLoader with an "
     "up-to-date callback, FileSystemLoader with mtimes forced from a counter}; plus Hypothesis RuleBasedStateMachine histories of "
@@ -509,8 +509,8 @@ def all_enumerated(tier):
     return itertools.chain(
         histories(2, 2, range(1, 6)),
         histories(3, 2, range(1, 5)),
-        histories(2, 2, [6], kinds=["dict", "fs"], caches=[1, 2]),
-        histories(2, 2, [6], kinds=["func", "func_utd"], caches=[1, 2], full=False),
+        histories(2, 2, [6], kinds=["dict"], caches=[1, 2]),
+        histories(2, 2, [6], kinds=["func", "func_utd", "fs"], caches=[1, 2], full=False),
     )
 
 
